@@ -605,7 +605,14 @@ class CPreProcessor:
             else:
                 return t.val
 
-        string_value = '"{}"'.format(" ".join(map(escape, snippet)))
+        # White space between the tokens of the argument becomes a single
+        # space, tokens which were adjacent stay adjacent:
+        parts = []
+        for token in snippet:
+            if parts and (token.space or token.first):
+                parts.append(" ")
+            parts.append(escape(token))
+        string_value = '"{}"'.format("".join(parts))
         return CToken("STRING", string_value, hash_token.space, False, loc)
 
     def concat(self, lhs, rhs):
